@@ -16,6 +16,7 @@ A predicate is a stateful oracle `Fn σ Bool`; `logged f` is a pure predicate wi
 Only theorems and their non-vacuity examples live here; proofs are in Lemmas/Lists.lean.
 -/
 import GoderiveModel.Lemmas.Lists
+import GoderiveModel.Spec.StructEq
 
 set_option linter.unusedSimpArgs false
 
@@ -35,7 +36,7 @@ def isPos : Val → Bool
   | .int n => decide (n > 0)
   | _ => false
 
-theorem goEq_equiv_ints (xs : List Val) (h : ∀ x ∈ xs, ∃ n, x = .int n) : Spec.EquivOn goEq xs := by
+private theorem goEq_equiv_ints (xs : List Val) (h : ∀ x ∈ xs, ∃ n, x = .int n) : Spec.EquivOn goEq xs := by
   refine ⟨?_, ?_, ?_⟩
   · intro a ha; obtain ⟨n, rfl⟩ := h a ha; simp [goEq]
   · intro a ha b hb; obtain ⟨n, rfl⟩ := h a ha; obtain ⟨m, rfl⟩ := h b hb
@@ -66,6 +67,35 @@ theorem contains_true_iff (eq : Val → Val → Res Bool) (e : Val → Val → B
 
 example : contains eqInt (i 2) [i 1, i 2] = .ok true :=
   (contains_true_iff eqInt goEq _ _ (fun _ _ => rfl)).mpr ⟨i 2, by simp, by decide⟩
+
+/-- **C14, Contains, instantiated with what the plugin emits for element type `E`** (`==` when
+`canEqual`, else `deriveEqual`) and the C02 facts as hypotheses: derived Equal computes structural
+equality without panicking, and `==` on a comparable type is the same verdict. -/
+theorem contains_spec_derived (env : Env) (E : Ty) (xs : List Val) (item : Val)
+    (hEqual : ∀ v ∈ xs, Equal.top env E v item = .ok (Spec.structEq env E v item))
+    (hGoEq : canEqual env E = true → ∀ v ∈ xs, goEq v item = Spec.structEq env E v item) :
+    contains (elemEq env E) item xs = .ok (xs.any (fun v => Spec.structEq env E v item)) := by
+  unfold elemEq
+  cases hc : canEqual env E with
+  | true =>
+    simp only [if_true]
+    exact contains_eq _ (Spec.structEq env E) item xs (fun v hv => by rw [hGoEq hc v hv])
+  | false =>
+    simp only [Bool.false_eq_true, if_false]
+    exact contains_eq _ (Spec.structEq env E) item xs hEqual
+
+
+def env0 : Env := { decls := [] }
+def tInt : Ty := .basic (.int 64 true)
+example : contains (elemEq env0 tInt) (.int 2) [.int 1, .int 2] = .ok true := by
+  rw [contains_spec_derived env0 tInt _ _ ?_ ?_]
+  · simp [Spec.structEq, env0, tInt, Env.under, leafEq]
+  · intro v hv
+    simp only [List.mem_cons, List.mem_nil_iff, or_false] at hv
+    rcases hv with rfl | rfl <;> simp [Equal.top, Spec.structEq, env0, tInt, Env.under, leafEq, goEq]
+  · intro _ v hv
+    simp only [List.mem_cons, List.mem_nil_iff, or_false] at hv
+    rcases hv with rfl | rfl <;> simp [Spec.structEq, env0, tInt, Env.under, leafEq, goEq]
 
 /-! ### 2. Unique -/
 
